@@ -538,6 +538,55 @@ func main() {
 		c.NonTrivial()
 	})
 
+	// long oblique segments: 65..1000 tiles across at zoom 7..16, away from the equator, in several directions. The
+	// mercator image of a segment is the straight tile-space segment between the projected ends, however long it is.
+	oblSpans := []float64{65, 130, 300}
+	if !r.Quick() {
+		oblSpans = append(oblSpans, 1000, 3000)
+	}
+	r.Explore("long-obliques", fmt.Sprintf("zoom {7, 10, 12, 16} x 2 start rows (about 60N and 45S) x spans %v tiles x 6 directions (slopes 1/3, 1, 5/2, both signs) x reversed: line cover == tiles the straight tile-space segment passes through; the triangle closed over the segment as a ring", oblSpans), mc.Opts{MaxDev: -1, Split: 2}, func(c *mc.Ctx) {
+		z := maptile.Zoom([]int{7, 10, 12, 16}[c.Choose(4)])
+		n := math.Ldexp(1, int(z))
+		row := []float64{0.29, 0.64}[c.Choose(2)]
+		span := oblSpans[c.Choose(len(oblSpans))]
+		slope := []float64{1.0 / 3, 1, 2.5, -1.0 / 3, -1, -2.5}[c.Choose(6)]
+		rev := c.Bool()
+		if math.Floor(n*0.2)+span+1 >= n {
+			c.Skip()
+			return
+		}
+		inv := func(x, y float64) orb.Point {
+			return orb.Point{(x/n - 0.5) * 360, math.Atan(math.Sinh(math.Pi*(1-2*y/n))) * 180 / math.Pi}
+		}
+		x0, y0 := math.Floor(n*0.2)+0.3, math.Floor(n*row)+0.4
+		ls := orb.LineString{inv(x0, y0), inv(x0+span, y0+span*slope)}
+		if math.Abs(ls[0][1]) >= 85 || math.Abs(ls[1][1]) >= 85 {
+			c.Skip() // the property speaks of latitudes in (-85, 85)
+			return
+		}
+		if rev {
+			ls[0], ls[1] = ls[1], ls[0]
+		}
+		pts := []tp{frac(ls[0], z), frac(ls[1], z)}
+		set := tilecover.LineString(ls, z)
+		desc := fmt.Sprintf("zoom=%d line=%v tile-space=%v cover=%d tiles", z, ls, pts, len(set))
+		if f := lineOracle(set, pts, z, true); f != "" {
+			c.Failf("line-cover", "%s | %s", f, desc)
+		}
+		// the same segment as the long edge of a triangle: the ring cover holds the boundary tiles of all three edges
+		third := inv(x0+span, y0)
+		ring := orb.Ring{ls[0], ls[1], third, ls[0]}
+		rs, err := tilecover.Geometry(ring, z)
+		if err != nil {
+			c.Failf("polygon-cover", "Geometry(ring) failed: %v | %s", err, desc)
+			return
+		}
+		rp := []tp{pts[0], pts[1], frac(third, z), pts[0]}
+		if f := lineOracle(rs, rp, z, false); f != "" {
+			c.Failf("polygon-cover", "triangle over the segment: boundary %s | %s", f, desc)
+		}
+		c.NonTrivial()
+	})
 	// long thin rectangles: thousands of tile rows (or columns) at deep zooms, where row-major tile indexes and
 	// intersection lists get large. The corners are tile centres, so the cover is exactly the tile range.
 	spans := []uint32{300, 1100, 2100}
